@@ -496,7 +496,14 @@ class IMAPClientCommand:
         init method so that if we hit a parsing exception the actual object
         gets created at least and potentially has self.tag set.
         """
-        self._parse()
+        try:
+            self._parse()
+        except ValueError as e:
+            # An impossible date ("31-Feb-2020"), a time zone offset or a
+            # number python refuses to convert: the command is bad, the server
+            # is not.
+            #
+            raise BadSyntax(value=str(e)) from e
         return self
 
     ####################################################################
